@@ -11,6 +11,10 @@ import (
 // Kinds of source delivery for the same byte string.
 var Kinds = []string{"bytes", "bufio", "bufio16", "onebyte", "dataerr", "half", "zeronil", "chunk7"}
 
+// SourceKinds adds buffered readers of sizes around bufio's minimum-adoption threshold (a callee that wraps its input
+// in a bufio.Reader gets the caller's own reader back only if that one is large enough).
+var SourceKinds = append(append([]string{}, Kinds...), "bufio512", "bufio4095", "bufio65536")
+
 // ZeroNil returns (0, nil) on every other call.
 type ZeroNil struct {
 	R    io.Reader
@@ -55,6 +59,12 @@ func New(kind string, b []byte) io.Reader {
 		return bufio.NewReader(bytes.NewReader(b))
 	case "bufio16":
 		return bufio.NewReaderSize(bytes.NewReader(b), 16)
+	case "bufio512":
+		return bufio.NewReaderSize(bytes.NewReader(b), 512)
+	case "bufio4095":
+		return bufio.NewReaderSize(bytes.NewReader(b), 4095)
+	case "bufio65536":
+		return bufio.NewReaderSize(bytes.NewReader(b), 65536)
 	case "onebyte":
 		return iotest.OneByteReader(bytes.NewReader(b))
 	case "dataerr":
